@@ -229,12 +229,125 @@ def run_e2e(ctx, n):
     return distinct
 
 
+WHOLE_RULES = """let approved = [
+    { "region": "eu-west-1", "stage": "prod", "replicas": 3 },
+    { "region": "eu-west-1", "stage": "test", "replicas": 1 }
+]
+rule approved_configuration {
+    this IN %approved
+}
+rule exactly {
+    this == { "region": "eu-west-1", "stage": "prod", "replicas": 3 } or
+    this == { "region": "eu-west-1", "stage": "test", "replicas": 1 }
+}
+rule not_rejected {
+    this not in [ { "stage": "prod", "replicas": 2, "region": "eu-west-1" } ]
+}
+rule reads_each_source {
+    region == "eu-west-1"
+    stage IN ["prod", "test"]
+    replicas >= 1
+}
+"""
+
+
+def run_whole_document(ctx):
+    """directed: rules that look at the merged document AS A WHOLE (membership in a list of approved structs, equality with a struct
+    literal) - the merged top-level map lists its keys in the order the sources were given, so every one of the 6 key orders of a
+    three-key document is produced (which source is the data file x the order of the two -i files); the verdicts are those of the
+    pre-merged document whatever that order."""
+    vals_good = {'region': 'eu-west-1', 'stage': 'prod', 'replicas': 3}
+    vals_bad = {'region': 'eu-west-1', 'stage': 'prod', 'replicas': 2}
+    jobs, meta = [], []
+    k = 0
+    for lab, vals, want in (('good', vals_good, 0), ('bad', vals_bad, 19)):
+        for data_key in vals:
+            d = os.path.join(ctx.wd, 'wd%d' % k); k += 1
+            others = [x for x in vals if x != data_key]
+            files = {'r.guard': WHOLE_RULES, 'data.json': json.dumps({data_key: vals[data_key]}), 'whole.json': json.dumps(vals)}
+            for x in others:
+                files['p_%s.json' % x] = json.dumps({x: vals[x]})
+            e2e.write_files(d, files)
+            for mode, flags in (('plain', []), ('structured', ['--structured', '-o', 'json', '-S', 'none'])):
+                jobs.append({'args': ['validate', '-r', 'r.guard', '-d', 'whole.json'] + flags, 'cwd': d}); meta.append((lab, want, data_key, 'pre-merged', mode))
+                for od in (others, others[::-1]):
+                    args = ['validate', '-r', 'r.guard', '-d', 'data.json'] + flags
+                    for x in od:
+                        args += ['-i', 'p_%s.json' % x]
+                    jobs.append({'args': args, 'cwd': d}); meta.append((lab, want, data_key, tuple(od), mode))
+    n = 0
+    sts = {}
+    for (lab, want, data_key, od, mode), (code, so, se) in zip(meta, e2e.run_many(jobs)):
+        n += 1
+        info = {'class': 'merge-whole-document', 'rules': WHOLE_RULES, 'document': lab, 'data_holds': data_key, 'parameter_order': od, 'mode': mode,
+                'stdout': so[:500].decode('utf-8', 'replace'), 'stderr': se[-300:].decode('utf-8', 'replace')}
+        if code != want:
+            ctx.failing('whole-document rules on the %s document (data holds %r, -i order %s, %s): exit %s, expected %d' % (lab, data_key, od, mode, code, want), info, found=True)
+            continue
+        if mode == 'structured':
+            st = structured_statuses(so)
+            ref = sts.setdefault(lab, st)
+            if st is None or st != ref:
+                ctx.failing('whole-document rules on the %s document: statuses %s with data=%r / -i order %s, %s with the first layout' % (lab, st, data_key, od, ref), info, found=True)
+    ctx.coverage['whole_document_runs'] = n
+    ctx.coverage['evaluations'] += n
+    return n
+
+
+CFN_RULES = """let max_size = Limits.MaxVolumeSize
+rule volumes_within_limit when Resources exists {
+    Resources.*[ Type == "AWS::EC2::Volume" ] {
+        Properties.Size <= %max_size
+        Properties.Encrypted == true
+    }
+}
+rule limits_present {
+    Limits.MaxVolumeSize exists
+}
+"""
+
+
+def run_cfn_console(ctx):
+    """directed: the default console output (the CloudFormation-aware reporter prints a `Code:` excerpt by line number) for a
+    template and a limits document given as data / parameter file either way round, as multi-line YAML and JSON of very different
+    lengths: the failing values come from the source the excerpt is NOT taken from. Exit code and crash-freedom against the
+    pre-merged document."""
+    import yaml
+    jobs, meta = [], []
+    k = 0
+    for nres in (1, 2, 6):
+        for bad in (None, 0, nres - 1):
+            res = {}
+            for i in range(nres):
+                res['Vol%d' % i] = {'Type': 'AWS::EC2::Volume', 'Properties': {'AvailabilityZone': 'eu-west-1a', 'Size': 4000 if bad == i else 100 + i, 'Encrypted': True}}
+            tpl = {'Resources': res}
+            lim = {'Limits': {'MaxVolumeSize': 500}}
+            want = 0 if bad is None else 19
+            for fmt in ('yaml', 'json'):
+                dump = (lambda x: yaml.safe_dump(x, default_flow_style=False)) if fmt == 'yaml' else (lambda x: json.dumps(x, indent=2) + '\n')
+                d = os.path.join(ctx.wd, 'cc%d' % k); k += 1
+                e2e.write_files(d, {'r.guard': CFN_RULES, 'tpl.' + fmt: dump(tpl), 'lim.' + fmt: dump(lim), 'union.' + fmt: dump(dict(tpl, **lim))})
+                for lab, args in (('pre-merged', ['-d', 'union.' + fmt]), ('data=template', ['-d', 'tpl.' + fmt, '-i', 'lim.' + fmt]), ('data=limits', ['-d', 'lim.' + fmt, '-i', 'tpl.' + fmt])):
+                    for mode, flags in (('console', []), ('console-verbose', ['--show-summary', 'all']), ('structured', ['--structured', '-o', 'json', '-S', 'none'])):
+                        jobs.append({'args': ['validate', '-r', 'r.guard'] + args + flags, 'cwd': d}); meta.append((nres, bad, fmt, lab, mode, want))
+    n = 0
+    for (nres, bad, fmt, lab, mode, want), (code, so, se) in zip(meta, e2e.run_many(jobs)):
+        n += 1
+        if code != want:
+            ctx.failing('template with %d volumes (%s over the limit, %s) as %s, %s output: exit %s, expected %d' % (nres, 'none' if bad is None else 'volume %d' % bad, fmt, lab, mode, code, want),
+                        {'class': 'merge-cfn-console', 'rules': CFN_RULES, 'volumes': nres, 'bad': bad, 'format': fmt, 'layout': lab, 'mode': mode,
+                         'stdout': so[:400].decode('utf-8', 'replace'), 'stderr': se[-400:].decode('utf-8', 'replace')}, found=True)
+    ctx.coverage['cfn_console_runs'] = n
+    ctx.coverage['evaluations'] += n
+    return n
+
+
 def run(ctx):
     ctx.build(cli=True)
     pr = ctx.proofs('C17')
     thorough = ctx.tier == 'thorough'
     n1 = hook_universe(ctx)
-    n2 = run_e2e(ctx, 150 if thorough else 30)
+    n2 = run_e2e(ctx, 150 if thorough else 30) + run_whole_document(ctx) + run_cfn_console(ctx)
     ctx.coverage['distinct_nontrivial'] = n1 + n2
     ctx.coverage['rule'] = ('merge kernel: every ordered pair of a %d-document universe (maps with disjoint / overlapping keys, lists, scalars, nested), all distinct; '
                             'end-to-end: generated (rules, document) with the top-level keys split at random into 1..3 parameter files + data, 25%% with a key defined '
